@@ -5596,7 +5596,15 @@ func (a *Agent) handleSleepCommand(peerID identity.AgentID, frame *protocol.Fram
 		return
 	}
 
-	// Process through flooder for deduplication and forwarding
+	a.processSleepCommand(peerID, cmd)
+}
+
+// processSleepCommand acts on a sleep command received from a peer, whatever
+// frame carried it (SLEEP_COMMAND or QUEUED_STATE). The flooder verifies the
+// signature and timestamp (when a signing key is configured), deduplicates
+// and forwards; only a command it accepts changes the sleep state.
+func (a *Agent) processSleepCommand(peerID identity.AgentID, cmd *protocol.SleepCommand) {
+	// Process through flooder for verification, deduplication and forwarding
 	if !a.flooder.HandleSleepCommand(peerID, cmd) {
 		return
 	}
@@ -5625,7 +5633,13 @@ func (a *Agent) handleWakeCommand(peerID identity.AgentID, frame *protocol.Frame
 		return
 	}
 
-	// Process through flooder for deduplication and forwarding
+	a.processWakeCommand(peerID, cmd)
+}
+
+// processWakeCommand acts on a wake command received from a peer, whatever
+// frame carried it (WAKE_COMMAND or QUEUED_STATE). See processSleepCommand.
+func (a *Agent) processWakeCommand(peerID identity.AgentID, cmd *protocol.WakeCommand) {
+	// Process through flooder for verification, deduplication and forwarding
 	if !a.flooder.HandleWakeCommand(peerID, cmd) {
 		return
 	}
@@ -5711,20 +5725,13 @@ func (a *Agent) handleQueuedState(peerID identity.AgentID, frame *protocol.Frame
 		a.flooder.HandleNodeInfoAdvertise(peerID, nodeInfo.OriginAgent, nodeInfo.Sequence, nodeInfo.EncInfo, nodeInfo.SeenBy)
 	}
 
-	// Check for sleep/wake commands in queued state
-	if state.SleepCmd != nil && a.sleepMgr != nil {
-		a.logger.Info("entering sleep mode from queued command")
-		if err := a.sleepMgr.Sleep(); err != nil {
-			a.logger.Error("failed to enter sleep mode from queued command",
-				logging.KeyError, err)
-		}
+	// Sleep/wake commands embedded in queued state are subject to the same
+	// signature/timestamp verification and deduplication as flooded commands.
+	if state.SleepCmd != nil {
+		a.processSleepCommand(peerID, state.SleepCmd)
 	}
-	if state.WakeCmd != nil && a.sleepMgr != nil {
-		a.logger.Info("waking from queued command")
-		if err := a.sleepMgr.Wake(); err != nil {
-			a.logger.Error("failed to wake from queued command",
-				logging.KeyError, err)
-		}
+	if state.WakeCmd != nil {
+		a.processWakeCommand(peerID, state.WakeCmd)
 	}
 }
 
